@@ -441,9 +441,31 @@ func RunC12(r *Run) {
 			ld = ldManifest
 		}
 		sp := loadSpec{loader: ld, conc: w.pickConc(), bias: r.Choose("bias", 3)}
+		if manifest {
+			// a corrupted manifest over a history of which nothing gets loaded: the heads it names are gone, or
+			// the caller asks for no entries at all
+			switch r.Choose("manifest-history", 4) {
+			case 1:
+				for _, h := range heads {
+					w.St.GetFaults[h] = FaultNotFound
+				}
+				desc += ", heads not retrievable"
+				r.Probe("corrupt-manifest-over-unloadable-history")
+			case 2:
+				zero := 0
+				sp.length = &zero
+				desc += ", length 0"
+				r.Probe("corrupt-manifest-over-unloadable-history")
+			}
+		}
 		var l *ipfslog.IPFSLog
 		var err error
 		out := Protect(func() { l, err, _ = w.load(in, sp, Writers()[4]) })
+		if manifest {
+			for _, h := range heads {
+				delete(w.St.GetFaults, h)
+			}
+		}
 		if out.Status == "violation" {
 			r.Violate("C12:load-panic", "%s panicked on a history containing a corrupted block (%s): %s", loaderNames[ld], desc, out.Msg)
 		} else if out.Status != "ok" {
